@@ -236,9 +236,13 @@ def apalache_inductive(module, has_consts, workdir, timeout=900):
         try:
             p = subprocess.run(cmd, cwd=workdir, stdout=subprocess.PIPE, stderr=subprocess.STDOUT, text=True, timeout=timeout,
                                env=dict(os.environ, JVM_ARGS='-Xmx3g'))
-        except subprocess.TimeoutExpired:
-            raise ToolError('apalache timeout on %s/%s' % (module, name))
+        except (subprocess.TimeoutExpired, OSError) as e:
+            # the prover not finishing / not starting is not a verdict about the code: recorded, not fatal
+            res['runs'].append(dict(obligation=name, ok=False, wall_s=round(time.time() - t0, 1), error=str(e)[:200]))
+            continue
         ok = 'EXITCODE: OK' in p.stdout and 'NoError' in p.stdout
+        if 'invariant' in p.stdout and 'violated' in p.stdout:
+            res['violated'] = True              # a genuine counterexample to inductiveness
         res['runs'].append(dict(obligation=name, ok=ok, wall_s=round(time.time() - t0, 1), cmd=' '.join(cmd[:6])))
         shutil.rmtree(out, ignore_errors=True)
         if ok:
@@ -257,8 +261,9 @@ def tlaps_prove(module, workdir, timeout=600):
     t0 = time.time()
     try:
         p = subprocess.run(['tlapm', '--threads', '4', module + 'Proof.tla'], cwd=d, stdout=subprocess.PIPE, stderr=subprocess.STDOUT, text=True, timeout=timeout)
-    except subprocess.TimeoutExpired:
-        raise ToolError('tlapm timeout on ' + module)
+    except (subprocess.TimeoutExpired, OSError) as e:
+        shutil.rmtree(d, ignore_errors=True)
+        return dict(module=module + 'Proof', prover='tlapm', obligations=1, discharged=0, ok=False, output_tail='tlapm did not finish: %s' % str(e)[:200])
     m = re.search(r'All (\d+) obligations? proved', p.stdout)
     res = dict(module=module + 'Proof', prover='tlapm 1.6 (SMT, Zenon, PTL)', wall_s=round(time.time() - t0, 1),
                obligations=int(m.group(1)) if m else 0, discharged=int(m.group(1)) if m else 0, ok=bool(m))
